@@ -25,7 +25,18 @@ search : float64 closed forms (atan2 form cross-checked with haversine),
          power-of-two rescaling), histories on one object, geometry_corrected,
          area-weighted distance measures, the cosine-error hypotheses of theorem
          angular_entry_error_combined measured on every run
+round 3: Lean theorems rcos_core / angular_entry_error_rounded (rounded angular kernel);
+         their elementary hypotheses (table error delta, radian error eps) measured and
+         the conclusion of rcos_core checked exactly in Fractions on every stored entry;
+         Model/GeoHist.lean (area-weighted histograms, neighbour AWC, distance
+         histograms) in exact correspondence with geographical_(cumulative_)distribution,
+         (average|max)_neighbor_area_weighted_connectivity,
+         geometric_distance_distribution, link_distance_distribution; oracles for the
+         wrappers, region_indices (exact crossing number) and network-level histories
+         that must leave the grid's cached distance matrices untouched (seeded C12-3)
 """
+import contextlib
+import io
 import itertools
 import math
 import struct
@@ -348,13 +359,23 @@ def run(ctx):
         "rescaled by 2^-10..2^30, lookups by 2^-20..2^40; 2-5 step histories on one grid / network "
         "object; adjacency random / empty / isolated node / complete; geometry_corrected both ways; "
         "longitudes k/4 in [-400, 800] for convert_lon_coordinates with sequences shorter / longer "
-        "than the grid")
+        "than the grid; round 3: sequences dyadic / constant / degree / AWC / random floats with 1-8 "
+        "bins for the area-weighted histograms; adjacency random / isolated node / complete / empty; "
+        "distance histograms with 1-8 (and 0) bins on geo and Euclidean grids of 1-12 nodes, "
+        "grid_type euclidean / spherical, geometry_corrected both ways; polygons with 3-5 vertices in "
+        "both orientations passed as float64 / float32 / list / read-only arrays on grids with and "
+        "without negative longitudes; 2-6 step histories of 21 public network measures on two "
+        "networks sharing one grid")
     ctx.trusted = common.DEFAULT_TRUSTED + [
         "IEEE-754: float32 arithmetic on the dyadic kernel inputs is exact (all intermediate "
         "values have < 24 significant bits) — the reason the Rat model can be compared exactly",
         "angular accuracy: proved from a bound eta on the float32 evaluation error of the cosine "
-        "(theorems angular_entry_*); eta itself is sampled (cosine_error_observed), as are the angle "
-        "errors (2^-10 abs, 2^-17 rel on [0.25, pi-0.25]) (partial)",
+        "(theorems angular_entry_*); round 3 proves eta under the standard model of float32 "
+        "arithmetic for the kernel from the table error delta and the radian error eps "
+        "(angular_entry_error_rounded: 3*2^-11 for delta <= 3*2^-25, 2^-10 for delta <= 2^-25); delta "
+        "and eps are measured (table_error_observed), the standard model is checked exactly on every "
+        "sampled entry (oracle kernel-rounding); the property's 2^-10 abs / 2^-17 rel on "
+        "[0.25, pi-0.25] themselves are sampled (partial)",
         "Euclidean accuracy 2^-20: proved under the standard model of floating point arithmetic "
         "(|rnd v - v| <= 2^-24 |v| per operation, powf within 1 ulp, no overflow / underflow, <= 6 "
         "dimensions: theorem euclidean_entry_accuracy_float32); that the hardware satisfies the "
@@ -386,6 +407,11 @@ def run(ctx):
     suite_link_distance(ctx, Grid, GeoGrid, GeoNetwork, SpatialNetwork, rng, 30 * S)
     suite_climate_weights(ctx, GeoGrid, rng, 24 * S)
     suite_convlon(ctx, GeoGrid, rng, 80 * S)
+    # round 3
+    suite_geo_hist(ctx, GeoGrid, GeoNetwork, rng, 50 * S)
+    suite_dist_hist(ctx, Grid, GeoGrid, GeoNetwork, SpatialNetwork, rng, 50 * S)
+    suite_region(ctx, GeoGrid, rng, 40 * S)
+    suite_net_history(ctx, Grid, GeoGrid, GeoNetwork, SpatialNetwork, rng, 20 * S)
 
 
 # --------------------------------------------------------------------------
@@ -675,6 +701,61 @@ def suite_rect(ctx, Grid, GeoGrid, rng, ncases):
 
 
 # --------------------------------------------------------------------------
+# round 3: the elementary hypotheses of theorem angular_entry_error_rounded, and the
+# conclusion of theorem rcos_core checked exactly on the compiled kernel
+# --------------------------------------------------------------------------
+U32 = 2.0 ** -24
+
+
+def kernel_rounding(ctx, g, C32, n, tab):
+    """(1) measures delta (table entries against float64 sin / cos of the float32 radians) and
+    eps (float32 radians against the exact radians);  (2) oracle, exact in Fractions: every
+    entry the compiled kernel stored is within  ((1+u)^2-1)|a| + ((1+u)^5-1)|p|(|q1|+|q2|)  of
+    the exactly evaluated, clamped expression on the tables it was handed (theorem rcos_core:
+    what the standard model of float32 arithmetic allows)."""
+    out = []
+    lat32, lon32 = g.lat_sequence(), g.lon_sequence()
+    rlat, rlon = lat32 * np.pi / 180, lon32 * np.pi / 180          # as in GeoGrid.cos_lat() ...
+    tabs = {"sl": (g.sin_lat(), np.sin, rlat), "cl": (g.cos_lat(), np.cos, rlat),
+            "sn": (g.sin_lon(), np.sin, rlon), "cn": (g.cos_lon(), np.cos, rlon)}
+    for nm, (t, f, r) in tabs.items():
+        if t.dtype != np.float32 or r.dtype != np.float32:
+            return out                      # another arithmetic: the measurement does not apply
+        tab["delta"] = max(tab["delta"],
+                           float(np.abs(t.astype(np.float64) - f(r.astype(np.float64))).max()))
+        tab["entries"] += len(t)
+    tab["eps_lat"] = max(tab["eps_lat"], float(np.abs(
+        rlat.astype(np.float64) - lat32.astype(np.float64) * math.pi / 180).max()))
+    tab["eps_lon"] = max(tab["eps_lon"], float(np.abs(
+        rlon.astype(np.float64) - lon32.astype(np.float64) * math.pi / 180).max()))
+    if n > 8:
+        return out
+    F = {k: [Fr(float(v)) for v in t] for k, (t, _, _) in tabs.items()}
+    u = Fr(1, 2 ** 24)
+    g2, g5 = (1 + u) ** 2 - 1, (1 + u) ** 5 - 1
+    for i in range(n):
+        for j in range(n):
+            hi, lo = max(i, j), min(i, j)
+            a = F["sl"][hi] * F["sl"][lo]
+            p_ = F["cl"][hi] * F["cl"][lo]
+            q1, q2 = F["sn"][hi] * F["sn"][lo], F["cn"][hi] * F["cn"][lo]
+            e = a + p_ * (q1 + q2)
+            ec = max(Fr(-1), min(Fr(1), e))
+            b = g2 * abs(a) + g5 * abs(p_) * (abs(q1) + abs(q2))
+            d = abs(Fr(float(C32[i, j])) - ec)
+            tab["pairs"] += 1
+            if b:
+                tab["round"] = max(tab["round"], float(d / b))
+            if d > b:
+                out.append(("kernel-rounding",
+                            f"stored cosine [{i},{j}] = {float(C32[i, j])!r} is {float(d):.3e} away "
+                            f"from the exactly evaluated clamped expression {float(ec)!r} on the "
+                            f"same tables; float32 rounding allows {float(b):.3e}"))
+                return out
+    return out
+
+
+# --------------------------------------------------------------------------
 # E. GeoGrid.angular_distance
 # --------------------------------------------------------------------------
 
@@ -683,6 +764,7 @@ def suite_angular(ctx, GeoGrid, rng, ncases, K):
     reqs, outs, metas = [], [], []
     stats = {"abs": 0.0, "rel": 0.0, "pairs": 0}
     eta = {"all": 0.0, "end": 0.0, "pairs": 0, "end_pairs": 0}
+    tab = {"delta": 0.0, "eps_lat": 0.0, "eps_lon": 0.0, "round": 0.0, "entries": 0, "pairs": 0}
     for c in range(ncases):
         n = rng.choice([1, 2, 3, 5, 8, 12, 16])
         kind, lat, lon = gen_geo_coords(rng, n)
@@ -735,6 +817,7 @@ def suite_angular(ctx, GeoGrid, rng, ncases, K):
             if endz.any():
                 eta["end"] = max(eta["end"], float(dc[endz].max()))
                 eta["end_pairs"] += int(endz.sum())
+            viol += kernel_rounding(ctx, g, C32, n, tab)
         for clause, what in viol:
             ctx.fail({"kind": "angular", "class": "GeoGrid", "method": "angular_distance",
                       "clause": clause},
@@ -769,6 +852,25 @@ def suite_angular(ctx, GeoGrid, rng, ncases, K):
         "hypotheses_hold_on_sample": eta["all"] <= ETA_ALL and eta["end"] <= ETA_END}
     ctx.count("angular:cosine-error-hypotheses-hold",
               int(eta["all"] <= ETA_ALL and eta["end"] <= ETA_END))
+    bound = None
+    if tab["entries"]:
+        d_, ef, el = tab["delta"], tab["eps_lat"], tab["eps_lon"]
+        eta_thm = ((1 + U32) ** 5 - 1) * (1 + 3 * d_) ** 2 + 5.66 * d_ + 11 * d_ * d_
+        bound = math.acos(1 - eta_thm) + 2 * (ef + el)
+        hyp = d_ <= 3 * 2.0 ** -25 and ef + el <= 2.0 ** -17
+        ctx.extra["table_error_observed"] = {
+            "theorems": "angular_entry_error_rounded / angular_entry_accuracy_float32 "
+                        "(u = 2^-24, delta <= 3*2^-25, eps_lat + eps_lon <= 2^-17 => error < 3*2^-11)",
+            "table_entries": tab["entries"], "pairs": tab["pairs"],
+            "max_delta_in_units_of_2^-24": round(d_ / U32, 3),
+            "max_eps_lat_log2": lg(ef), "max_eps_lon_log2": lg(el),
+            "max_kernel_rounding_error_over_rcos_core_bound": round(tab["round"], 4),
+            "bound_of_the_theorem_at_the_measured_values_log2": lg(bound),
+            "max_abs_err_observed_log2": lg(stats["abs"]),
+            "hypotheses_of_angular_entry_accuracy_float32_hold_on_sample": hyp,
+            "observed_error_within_theorem_bound": stats["abs"] <= bound}
+        ctx.count("angular:table-error-hypotheses-hold", int(hyp))
+        ctx.count("angular:observed-error-within-proved-bound", int(stats["abs"] <= bound))
     ctx.extra["angular_error_observed"] = {
         "pairs": stats["pairs"],
         "max_abs_err_log2": round(math.log2(stats["abs"]), 2) if stats["abs"] else None,
@@ -1473,6 +1575,548 @@ def suite_convlon(ctx, GeoGrid, rng, ncases):
     ctx.correspond("Lean convertLon (Rat) == GeoGrid.convert_lon_coordinates", reqs, impl)
 
 
+
+# --------------------------------------------------------------------------
+# L. (round 3) area-weighted histograms and neighbour statistics of the AWC
+# --------------------------------------------------------------------------
+
+def geo_symbols_float(seq, nb):
+    """the symbols as the float64 code computes them (binning is not the property's subject)"""
+    lo, hi = float(min(seq)), float(max(seq))
+    sc = 1. / (hi - lo)
+    return [int((nb - 1) * sc * (float(x) - lo)) for x in seq]
+
+
+def suite_geo_hist(ctx, GeoGrid, GeoNetwork, rng, ncases):
+    reqs, impl = [], []
+    nreqs, nimpl = [], []
+    for c in range(ncases):
+        n = rng.choice([2, 3, 5, 8, 12])
+        lat = [f32(rng.uniform(-89, 89)) for _ in range(n)]
+        if rng.random() < 0.3:
+            lat[rng.randrange(n)] = rng.choice([90.0, -90.0, 0.0])
+        lon = [f32(rng.uniform(-180, 180)) for _ in range(n)]
+        directed = rng.random() < 0.4
+        A = rand_adj(rng, n, directed)
+        shape = rng.choice(["random", "random", "random", "isolated", "complete", "empty"])
+        if shape == "isolated":
+            i0 = rng.randrange(n)
+            A[i0, :] = 0
+            A[:, i0] = 0
+        elif shape == "complete":
+            A[:] = 1
+            np.fill_diagonal(A, 0)
+        elif shape == "empty":
+            A[:] = 0
+        g = GeoGrid(np.arange(2), np.array(lat), np.array(lon), silence_level=3)
+        net = GeoNetwork(g, adjacency=A, directed=directed, silence_level=3)
+        cosl = [math.cos(math.radians(v)) for v in lat]
+        tot = math.fsum(cosl)
+        w32 = [float(v) for v in g.cos_lat()]
+        nb = rng.choice([1, 2, 3, 4, 5, 8])
+        skind = rng.choice(["dyadic", "dyadic", "constant", "degree", "awc", "float"])
+        if skind == "dyadic":
+            span = rng.choice([1, 2, 4, 8, 16])
+            base = rng.randrange(-5, 6)
+            seq = [float(base + rng.randrange(0, span + 1)) for _ in range(n)]
+            seq[rng.randrange(n)] = float(base)
+            seq[rng.randrange(n)] = float(base + span)
+            if min(seq) == max(seq) or max(seq) - min(seq) != span:
+                seq[0], seq[-1] = float(base), float(base + span)
+            if rng.random() < 0.3:
+                seq = [v / 4 for v in seq]
+        elif skind == "constant":
+            seq = [float(rng.randrange(-3, 4))] * n
+        elif skind == "degree":
+            seq = [float(v) for v in net.degree()]
+        elif skind == "awc":
+            seq = [float(v) for v in net.area_weighted_connectivity()]
+        else:
+            seq = [rng.uniform(-2, 2) for _ in range(n)]
+        ctx.count(f"geo-hist:sequence={skind}")
+        ctx.count(f"geo-hist:n_bins={nb}")
+        ctx.count(f"geo-hist:adjacency={shape}")
+        ctx.case(("gh", tuple(lat), tuple(seq), nb), len(set(seq)) >= 2)
+        desc = {"lat": lat, "lon": lon, "sequence": seq, "n_bins": nb}
+        constant = min(seq) == max(seq)
+        cum = rng.random() < 0.4
+        meth = "geographical_cumulative_distribution" if cum else "geographical_distribution"
+        try:
+            with np.errstate(all="ignore"):
+                res = getattr(net, meth)(np.array(seq), nb)
+            got = [float(v) for v in res[0]]
+            ans = None
+        except Exception as e:  # noqa
+            got, ans = None, "raise:" + type(e).__name__
+        if constant:
+            # `1. / (range_max - range_min)` on Python floats: not a clause of C12, but the model
+            # must reproduce it
+            ctx.count("geo-hist:constant-sequence-raises", int(ans == "raise:ZeroDivisionError"))
+        elif got is None:
+            ctx.fail({"kind": "geo-hist", "class": "GeoNetwork", "method": meth,
+                      "error": ans}, f"{meth} raised on a non-constant sequence: {ans}", desc)
+            continue
+        if got is not None:
+            # oracle: each node contributes the cosine of its own latitude to one bin
+            sym = geo_symbols_float(seq, nb)
+            exp = [math.fsum(cosl[i] for i in range(n) if sym[i] == b) / tot for b in range(nb)]
+            if cum:
+                exp = [math.fsum(exp[b:]) for b in range(nb)]
+            bad = len(got) != nb or any(abs(got[b] - exp[b]) > 2.0 ** -18 for b in range(nb))
+            if not bad and abs((got[0] if cum else math.fsum(got)) - 1) > 2.0 ** -18:
+                bad = True
+            if not bad:
+                lbb = [float(v) for v in res[2]]
+                elb = list(np.linspace(min(seq), max(seq), nb + 1)[:-1])
+                if len(lbb) != nb or any(abs(a - b) > 1e-12 * max(1, abs(b)) for a, b in zip(lbb, elb)):
+                    bad = True
+            if bad:
+                ctx.fail({"kind": "geo-hist", "class": "GeoNetwork", "method": meth},
+                         f"{meth}: a bin is not the share of cos(lat)-area of the nodes falling "
+                         "into it (each node weighted by the cosine of its own latitude), or the "
+                         "bins do not sum to 1",
+                         dict(desc, expected=exp, observed=got))
+        # exact model request (weights = the implementation's own cos_lat table)
+        if len(seq) and (got is not None or constant):
+            safe = constant
+            if not constant:
+                lo, hi = Fr(min(seq)), Fr(max(seq))
+                ts = [(nb - 1) * (Fr(x) - lo) / (hi - lo) for x in seq]
+                pow2 = (hi - lo).numerator == 1 or (hi - lo).denominator == 1 and \
+                    ((hi - lo).numerator & ((hi - lo).numerator - 1)) == 0
+                safe = pow2 or all(t == 0 or abs(t - round(t)) > Fr(1, 10 ** 9) for t in ts)
+            if safe:
+                reqs.append(f"{'geocum' if cum else 'geodist'} {nb} {enc_rats(w32)} {enc_rats(seq)}")
+                impl.append(ans if got is None else got)
+            else:
+                ctx.count("geo-hist:tie-at-a-bin-boundary (oracle only)")
+        # the six wrappers are geographical_(cumulative_)distribution of the AWC sequences
+        if rng.random() < 0.5:
+            pre = rng.choice(["", "in", "out"])
+            wcum = rng.random() < 0.5
+            wn = f"{pre}area_weighted_connectivity_{'cumulative_' if wcum else ''}distribution"
+            awcs = getattr(net, f"{pre}area_weighted_connectivity")()
+            try:
+                with np.errstate(all="ignore"):
+                    a1 = getattr(net, wn)(nb)
+            except ZeroDivisionError:
+                a1 = None
+            try:
+                with np.errstate(all="ignore"):
+                    a2 = getattr(net, "geographical_cumulative_distribution" if wcum
+                                 else "geographical_distribution")(awcs, nb)
+            except ZeroDivisionError:
+                a2 = None
+            ctx.count(f"geo-hist:wrapper={wn}")
+            same = (a1 is None) == (a2 is None) and \
+                (a1 is None or all(np.array_equal(x, y, equal_nan=True) for x, y in zip(a1, a2)))
+            if not same:
+                ctx.fail({"kind": "geo-hist", "class": "GeoNetwork", "method": wn},
+                         f"{wn}(n_bins) is not the geographical distribution of "
+                         f"{pre}area_weighted_connectivity()",
+                         dict(desc, adjacency=A.tolist(), directed=directed))
+        # neighbour statistics of the AWC
+        awc = [float(v) for v in net.area_weighted_connectivity()]
+        Au = ((A + A.T) > 0).astype(int)
+        deg = [float(v) for v in net.degree()]
+        inn = [math.fsum(cosl[i] * int(A[i, j]) for i in range(n)) / tot for j in range(n)]
+        out_ = [math.fsum(cosl[j] * int(A[i, j]) for j in range(n)) / tot for i in range(n)]
+        cawc = [a + b for a, b in zip(inn, out_)] if directed else inn
+        try:
+            avg = [float(v) for v in net.average_neighbor_area_weighted_connectivity()]
+        except Exception as e:  # noqa
+            ctx.fail({"kind": "nb-awc", "method": "average_neighbor_area_weighted_connectivity",
+                      "error": type(e).__name__}, f"raised {type(e).__name__}: {e}",
+                     dict(desc, adjacency=A.tolist(), directed=directed))
+            avg = None
+        if avg is not None:
+            nreqs.append(f"nbawc {n} {enc_rats(awc)} {enc_rats(deg)} {enc_ratmat(Au.tolist())}")
+            nimpl.append(("avg", avg))
+            if not directed:
+                e = [math.fsum(cawc[j] for j in range(n) if Au[i, j]) / Au[i].sum()
+                     if Au[i].sum() else 0.0 for i in range(n)]
+                if len(avg) != n or any(abs(avg[i] - e[i]) > 2.0 ** -17 for i in range(n)):
+                    ctx.fail({"kind": "nb-awc", "class": "GeoNetwork",
+                              "method": "average_neighbor_area_weighted_connectivity"},
+                             "average_neighbor_area_weighted_connectivity is not the mean over the "
+                             "neighbours of their cos-lat weighted connectivity",
+                             dict(desc, adjacency=A.tolist(), expected=e, observed=avg))
+        try:
+            mx = [float(v) for v in net.max_neighbor_area_weighted_connectivity()]
+            mans = None
+        except ValueError:
+            mx, mans = None, "raise:ValueError"
+        except Exception as e:  # noqa
+            ctx.fail({"kind": "nb-awc", "method": "max_neighbor_area_weighted_connectivity",
+                      "error": type(e).__name__}, f"raised {type(e).__name__}: {e}",
+                     dict(desc, adjacency=A.tolist(), directed=directed))
+            continue
+        isolated = any(Au[i].sum() == 0 for i in range(n))
+        ctx.count("nb-awc:has-isolated-node", int(isolated))
+        nreqs.append(f"maxnbawc {n} {enc_rats(awc)} {enc_ratmat(Au.tolist())}")
+        nimpl.append(("max", mx if mx is not None else mans))
+        if mx is not None:
+            e = [max((cawc[j] for j in range(n) if Au[i, j]), default=None) for i in range(n)]
+            if isolated or len(mx) != n or any(abs(mx[i] - e[i]) > 2.0 ** -17 for i in range(n)):
+                ctx.fail({"kind": "nb-awc", "class": "GeoNetwork",
+                          "method": "max_neighbor_area_weighted_connectivity"},
+                         "max_neighbor_area_weighted_connectivity is not the maximum over the "
+                         "neighbours of their cos-lat weighted connectivity",
+                         dict(desc, adjacency=A.tolist(), directed=directed, expected=e, observed=mx))
+        elif not isolated:
+            ctx.fail({"kind": "nb-awc", "class": "GeoNetwork",
+                      "method": "max_neighbor_area_weighted_connectivity", "error": "ValueError"},
+                     "max_neighbor_area_weighted_connectivity raised although every node has a "
+                     "neighbour", dict(desc, adjacency=A.tolist(), directed=directed))
+
+    def judge(i, m):
+        im = impl[i]
+        if isinstance(im, str):
+            return None if m == im else f"model {m} impl {im}"
+        if m.startswith("raise") or m == "nonfinite":
+            return f"model {m} impl {im}"
+        mv = [float(Fr(t)) for t in m.split(",")] if m != "-" else []
+        if len(mv) != len(im) or any(abs(a - b) > 2.0 ** -20 * max(a, 2.0 ** -10)
+                                     for a, b in zip(mv, im)):
+            return f"model {mv} impl {im}"
+        return None
+
+    def judge_n(i, m):
+        kind, im = nimpl[i]
+        toks = m.split(",") if m != "-" else []
+        if kind == "max":
+            if isinstance(im, str):
+                return None if "none" in toks else f"model {m} impl {im}"
+            if "none" in toks:
+                return f"model {m} (a node without neighbours) impl {im}"
+            if [Fr(t) for t in toks] != [Fr(v) for v in im]:
+                return f"model {m} impl {im}"
+            return None
+        mv = [float(Fr(t)) for t in toks]
+        # the implementation's AWC is a float32 array: `A * awc` is evaluated in single precision
+        if len(mv) != len(im) or any(abs(a - b) > 2.0 ** -20 * max(2.0 ** -10, abs(a))
+                                     for a, b in zip(mv, im)):
+            return f"model {mv} impl {im}"
+        return None
+
+    custom_correspond(ctx, "Lean geoDist / cumFrom (Rat, weights = the implementation's cos_lat "
+                      "table) ~ GeoNetwork.geographical_(cumulative_)distribution (rel 2^-20; "
+                      "ZeroDivisionError on constant sequences)", reqs, judge)
+    custom_correspond(ctx, "Lean avgNbAWC / maxNbAWC (Rat, on the implementation's AWC) ~ "
+                      "(average|max)_neighbor_area_weighted_connectivity (mean rel 2^-20, max exact, ValueError "
+                      "iff a node has no neighbour)", nreqs, judge_n)
+
+
+# --------------------------------------------------------------------------
+# M. (round 3) histograms of distances
+# --------------------------------------------------------------------------
+
+def near_edge(vals, mx, nb):
+    """some value lies within 2^-18 * max of an interior bin edge (float32 edges may then put
+    it on the other side than the exact edges of the model)"""
+    if nb <= 1 or mx <= 0:
+        return False
+    for v in vals:
+        t = float(v) * nb / mx
+        if 0.5 < t < nb - 0.5 + 1 and abs(t - round(t)) < 2.0 ** -18 * nb and 1 <= round(t) <= nb - 1:
+            return True
+    return False
+
+
+def suite_dist_hist(ctx, Grid, GeoGrid, GeoNetwork, SpatialNetwork, rng, ncases):
+    reqs, impl = [], []
+    for c in range(ncases):
+        n = rng.choice([1, 2, 3, 5, 8, 12])
+        geo = rng.random() < 0.5
+        directed = rng.random() < 0.4
+        if geo:
+            _, lat, lon = gen_geo_coords(rng, n)
+            n = len(lat)
+            g = GeoGrid(np.arange(2), np.array(lat), np.array(lon), silence_level=3)
+            desc = {"lat": lat, "lon": lon}
+        else:
+            d = rng.randrange(1, 4)
+            _, X = gen_euc_coords(rng, d, n)
+            g = Grid(np.arange(2), np.array(X).reshape(d, n), silence_level=3)
+            desc = {"space_seq": X}
+        A = rand_adj(rng, n, directed)
+        shape = rng.choice(["random", "random", "empty", "complete"])
+        if shape == "empty":
+            A[:] = 0
+        elif shape == "complete":
+            A[:] = 1
+            np.fill_diagonal(A, 0)
+        net = (GeoNetwork if geo else SpatialNetwork)(g, adjacency=A, directed=directed,
+                                                       silence_level=3) if n >= 2 else None
+        nb = rng.choice([1, 2, 3, 4, 5, 7, 8])
+        Dg = np.array(g.distance())
+        if not np.isfinite(Dg).all():
+            continue
+        ctx.count(f"dist-hist:{'geo' if geo else 'euclid'}:n_bins={nb}")
+        ctx.case(("dh", str(desc), nb, A.tobytes().hex()), n >= 2)
+        # geometric_distance_distribution
+        try:
+            with np.errstate(all="ignore"):
+                dist, lbb = g.geometric_distance_distribution(nb)
+            gans = [float(v) for v in dist]
+        except Exception as e:  # noqa
+            gans = "raise:" + type(e).__name__
+        mx = float(Dg.max())
+        tie_g = near_edge(Dg.flatten(), mx, nb)
+        if not isinstance(gans, str) and all(math.isfinite(v) for v in gans):
+            # oracle: counts of the N(N-1) off-diagonal distances per bin of width max/n_bins
+            ok = abs(math.fsum(gans) - 1) < 1e-9 and len(gans) == nb
+            if ok and not tie_g and np.all(np.diag(Dg) < mx / nb):
+                off = Dg[~np.eye(n, dtype=bool)].astype(np.float64)
+                idx = np.minimum((off * nb / mx).astype(int), nb - 1)
+                exp = np.bincount(idx, minlength=nb) / len(off)
+                ok = np.allclose(exp, gans, atol=1e-12)
+            if not ok:
+                ctx.fail({"kind": "dist-hist", "method": "geometric_distance_distribution",
+                          "grid": "geo" if geo else "euclid"},
+                         "geometric_distance_distribution is not the normalised histogram of the "
+                         "off-diagonal distances", dict(desc, n_bins=nb, observed=gans))
+        if not tie_g:
+            reqs.append(f"geomdd {n} {nb} {enc_ratmat(Dg.astype(np.float64).tolist())}")
+            impl.append(gans)
+        else:
+            ctx.count("dist-hist:value-at-a-bin-edge (oracle only)")
+        # link_distance_distribution
+        if net is None:
+            continue
+        gts = ["euclidean", "spherical"] if geo else ["euclidean"]
+        gt = rng.choice(gts)
+        corr = rng.random() < 0.5
+        Dl = np.array(g.angular_distance() if gt == "spherical" else g.euclidean_distance())
+        try:
+            with np.errstate(all="ignore"):
+                if gt == "euclidean" and not corr and rng.random() < 0.5:
+                    ld = net.link_distance_distribution(nb)
+                else:
+                    ld = net.link_distance_distribution(nb, grid_type=gt, geometry_corrected=corr)
+            lans = [float(v) for v in ld[0]]
+        except Exception as e:  # noqa
+            lans = "raise:" + type(e).__name__
+        ctx.count(f"dist-hist:link:{gt}:corrected={corr}")
+        vals = Dl[A == 1]
+        lmx = float(Dl.max())
+        tie_l = near_edge(vals, lmx, nb) or (corr and tie_g)
+        if not isinstance(lans, str) and all(math.isfinite(v) for v in lans) and not corr \
+                and not tie_l and lmx > 0 and len(vals):
+            idx = np.minimum((vals.astype(np.float64) * nb / lmx).astype(int), nb - 1)
+            exp = np.bincount(idx, minlength=nb) / len(vals)
+            if len(lans) != nb or not np.allclose(exp, lans, atol=1e-12):
+                ctx.fail({"kind": "dist-hist", "method": "link_distance_distribution",
+                          "grid_type": gt, "geometry_corrected": corr},
+                         "link_distance_distribution is not the normalised histogram of the "
+                         "distances over the links",
+                         dict(desc, adjacency=A.tolist(), n_bins=nb, expected=exp.tolist(),
+                              observed=lans))
+        if not tie_l:
+            reqs.append(f"linkdd {int(corr)} {n} {nb} {enc_ratmat(Dl.astype(np.float64).tolist())} "
+                        f"{enc_ratmat(Dg.astype(np.float64).tolist())} {enc_ratmat(A.tolist())}")
+            impl.append(lans)
+    # error branch: n_bins = 0
+    g = Grid(np.arange(2), np.array([[0., 1., 3.]]), silence_level=3)
+    try:
+        g.geometric_distance_distribution(0)
+        z = "no-error"
+    except Exception as e:  # noqa
+        z = "raise:" + type(e).__name__
+    reqs.append(f"geomdd 3 0 {enc_ratmat(np.array(g.distance()).astype(np.float64).tolist())}")
+    impl.append(z)
+
+    def judge(i, m):
+        im = impl[i]
+        if isinstance(im, str):
+            return None if m == im else f"model {m} impl {im}"
+        if m == "nonfinite":
+            return None if any(not math.isfinite(v) for v in im) else f"model nonfinite impl {im}"
+        if m.startswith("raise"):
+            return f"model {m} impl {im}"
+        mv = [float(Fr(t)) for t in m.split(",")] if m != "-" else []
+        if len(mv) != len(im) or any(not (abs(a - b) <= 1e-12) for a, b in zip(mv, im)):
+            return f"model {mv} impl {im}"
+        return None
+
+    custom_correspond(ctx, "Lean geomDistDist / linkDistDist (Rat, on the implementation's distance "
+                      "matrices) ~ Grid.geometric_distance_distribution / "
+                      "SpatialNetwork.link_distance_distribution (1e-12; non-finite results and "
+                      "n_bins = 0 included)", reqs, judge)
+
+
+# --------------------------------------------------------------------------
+# N. (round 3) GeoGrid.region_indices: exact crossing-number test
+# --------------------------------------------------------------------------
+
+def crossing_inside(poly, pt):
+    """even-odd rule in Fractions; returns None if the point is within 1/1000 of an edge"""
+    x, y = pt
+    inside = False
+    m = len(poly)
+    for k in range(m):
+        (x1, y1), (x2, y2) = poly[k], poly[(k + 1) % m]
+        # distance to the segment (squared), to exclude boundary cases
+        dx, dy = x2 - x1, y2 - y1
+        L2 = dx * dx + dy * dy
+        t = max(Fr(0), min(Fr(1), ((x - x1) * dx + (y - y1) * dy) / L2)) if L2 else Fr(0)
+        px, py = x1 + t * dx, y1 + t * dy
+        if (x - px) ** 2 + (y - py) ** 2 < Fr(1, 10 ** 6):
+            return None
+        if (y1 > y) != (y2 > y):
+            xc = x1 + (y - y1) * dx / dy
+            if x < xc:
+                inside = not inside
+    return inside
+
+
+def suite_region(ctx, GeoGrid, rng, ncases):
+    for c in range(ncases):
+        n = rng.choice([1, 3, 6, 10])
+        positive = rng.random() < 0.5          # all grid longitudes >= 0: negative polygon
+        lat = [rng.randrange(-360, 361) / 4 for _ in range(n)]      # longitudes are remapped
+        lon = [rng.randrange(0 if positive else -720, 1441 if positive else 721) / 4
+               for _ in range(n)]
+        g = GeoGrid(np.arange(2), np.array(lat), np.array(lon), silence_level=3)
+        kind = rng.choice(["triangle", "rectangle", "quad", "pentagon"])
+        cx = rng.uniform(-170, 170)
+        cy = rng.uniform(-80, 80)
+        if kind == "rectangle":
+            w, h = rng.uniform(5, 150), rng.uniform(5, 60)
+            pts = [(cx - w, cy - h), (cx + w, cy - h), (cx + w, cy + h), (cx - w, cy + h)]
+        else:
+            k = {"triangle": 3, "quad": 4, "pentagon": 5}[kind]
+            angs = sorted(rng.uniform(0, 2 * math.pi) for _ in range(k))
+            pts = [(cx + rng.uniform(10, 150) * math.cos(a), cy + rng.uniform(5, 70) * math.sin(a))
+                   for a in angs]
+        if rng.random() < 0.5:
+            pts.reverse()
+        pts = [(round(x * 8) / 8, round(y * 8) / 8) for x, y in pts]
+        region = np.array([v for p in pts for v in p])
+        how = rng.choice(["f64", "list", "f32", "readonly"])
+        arg = region.copy()
+        if how == "list":
+            arg = list(region)
+        elif how == "f32":
+            arg = region.astype(np.float32)
+        elif how == "readonly":
+            arg.flags.writeable = False
+        before = np.array(arg, dtype=np.float64).copy()
+        ctx.count(f"region:{kind}:{how}:grid-lon>=0={positive and min(lon) >= 0}")
+        ctx.case(("rg", tuple(lat), tuple(lon), tuple(region)), n >= 3)
+        desc = {"lat": lat, "lon": lon, "region": region.tolist(), "region_passed_as": how}
+        try:
+            got = [bool(v) for v in g.region_indices(arg)]
+        except Exception as e:  # noqa
+            ctx.fail({"kind": "region", "method": "region_indices", "error": type(e).__name__},
+                     f"region_indices raised {type(e).__name__}: {e}", desc)
+            continue
+        if not np.array_equal(np.array(arg, dtype=np.float64), before):
+            ctx.fail({"kind": "region", "method": "region_indices", "clause": "argument-modified"},
+                     "region_indices modified the caller's region array", desc)
+        remap = min(lon) >= 0
+        poly = [(Fr(x) + 360 if remap and x < 0 else Fr(x), Fr(y)) for x, y in pts]
+        exp = [crossing_inside(poly, (Fr(lon[i]), Fr(lat[i]))) for i in range(n)]
+        ctx.count("region:nodes-decided", sum(e is not None for e in exp))
+        ctx.count("region:nodes-inside", sum(bool(e) for e in exp))
+        # a self-intersecting remapped polygon is still decided by the even-odd rule only if
+        # matplotlib uses it; restrict the comparison to polygons that stay simple
+        simple = not remap or all(x >= 0 for x, _ in pts) or all(x < 0 for x, _ in pts)
+        if simple and (len(got) != n or any(e is not None and e != gv for e, gv in zip(exp, got))):
+            ctx.fail({"kind": "region", "class": "GeoGrid", "method": "region_indices"},
+                     "region_indices does not mark exactly the nodes inside the polygon "
+                     "(lon, lat pairs; negative polygon longitudes + 360 on a [0, 360] grid)",
+                     dict(desc, expected=exp, observed=got))
+
+
+# --------------------------------------------------------------------------
+# O. (round 3) the cached distance matrix is handed out by reference: no public method of a
+#    network built on the grid may change it  (seeded C12-3)
+# --------------------------------------------------------------------------
+
+NET_OPS = [
+    ("local_geographical_clustering", {}, True),
+    ("average_link_distance", {}, False), ("average_link_distance", {"geometry_corrected": True}, False),
+    ("inaverage_link_distance", {}, False), ("outaverage_link_distance", {"geometry_corrected": True}, False),
+    ("max_link_distance", {}, False),
+    ("total_link_distance", {}, True), ("intotal_link_distance", {"geometry_corrected": True}, True),
+    ("outtotal_link_distance", {}, True),
+    ("connectivity_weighted_distance", {}, True), ("inconnectivity_weighted_distance", {}, True),
+    ("outconnectivity_weighted_distance", {}, True),
+    ("link_distance_distribution", {"n_bins": 3}, False),
+    ("link_distance_distribution", {"n_bins": 4, "grid_type": "spherical", "geometry_corrected": True}, True),
+    ("average_distance_weighted_path_length", {}, False),
+    ("distance_weighted_closeness", {}, False),
+    ("local_distance_weighted_vulnerability", {}, False),
+    ("area_weighted_connectivity", {}, True),
+    ("average_neighbor_area_weighted_connectivity", {}, True),
+    ("area_weighted_connectivity_distribution", {"n_bins": 3}, True),
+    ("distance", {}, False),
+]
+
+
+def suite_net_history(ctx, Grid, GeoGrid, GeoNetwork, SpatialNetwork, rng, ncases):
+    for c in range(ncases):
+        geo = rng.random() < 0.7
+        n = rng.choice([3, 5, 8])
+        if geo:
+            _, lat, lon = gen_geo_coords(rng, n)
+            n = len(lat)
+            if n < 2:
+                continue
+            g = GeoGrid(np.arange(2), np.array(lat), np.array(lon), silence_level=3)
+            desc = {"lat": lat, "lon": lon}
+        else:
+            d = rng.randrange(1, 4)
+            _, X = gen_euc_coords(rng, d, n)
+            g = Grid(np.arange(2), np.array(X).reshape(d, n), silence_level=3)
+            desc = {"space_seq": X}
+        directed = rng.random() < 0.3
+        A = rand_adj(rng, n, directed)
+        for i in range(n - 1):                    # connected: path lengths stay finite
+            A[i, i + 1] = A[i + 1, i] = 1
+        net = (GeoNetwork if geo else SpatialNetwork)(g, adjacency=A, directed=directed,
+                                                       silence_level=3)
+        other = (GeoNetwork if geo else SpatialNetwork)(g, adjacency=A.T.copy(), directed=directed,
+                                                         silence_level=3)   # shares the grid
+        D0 = np.array(g.distance()).copy()
+        E0 = np.array(g.euclidean_distance()).copy()
+        ops = [o for o in NET_OPS if geo or not o[2]]
+        steps = [rng.choice(ops) for _ in range(rng.randrange(2, 6))]
+        if geo and rng.random() < 0.5:
+            steps.insert(rng.randrange(len(steps) + 1), NET_OPS[0])
+        done = []
+        ctx.case(("nh", str(desc), str([(s[0], sorted(s[1].items())) for s in steps])), True)
+        for nm, kw, _ in steps:
+            who = rng.choice([net, other])
+            try:
+                with np.errstate(all="ignore"), contextlib.redirect_stdout(io.StringIO()):
+                    getattr(who, nm)(**kw)
+            except (ZeroDivisionError, ValueError):
+                pass                              # constant sequences / isolated nodes: see L
+            except Exception as e:  # noqa
+                ctx.fail({"kind": "history", "method": nm, "error": type(e).__name__},
+                         f"{nm}({kw}) raised {type(e).__name__}: {e}",
+                         dict(desc, adjacency=A.tolist(), directed=directed, history=done + [nm]))
+                break
+            done.append(nm if not kw else f"{nm}({kw})")
+            ctx.count(f"net-history:{nm}")
+            D1, E1 = np.array(g.distance()), np.array(g.euclidean_distance())
+            if not (np.array_equal(D1, D0, equal_nan=True) and np.array_equal(E1, E0, equal_nan=True)):
+                which = "distance()" if not np.array_equal(D1, D0, equal_nan=True) \
+                    else "euclidean_distance()"
+                viol = ang_violations(D1, gc_matrix(g.lat_sequence(), g.lon_sequence())) if geo \
+                    else euc_violations(D1, euc_matrix(g._grid["space"]))
+                ctx.fail({"kind": "history", "class": type(net).__name__, "method": nm,
+                          "clause": "cached-distance-matrix-changed"},
+                         f"after {type(net).__name__}.{nm}({kw}) the grid's {which} is no longer the "
+                         f"matrix it returned before (the cached array was edited in place); "
+                         f"clauses now violated: {[v[0] for v in viol]}",
+                         dict(desc, adjacency=A.tolist(), directed=directed, history=done,
+                              steps=[[a, b] for a, b, _ in steps[:len(done)]],
+                              before=D0.astype(float).tolist(), after=D1.astype(float).tolist()))
+                break
+
 # --------------------------------------------------------------------------
 # replay of a recorded violation:  ./check C12 --replay replays/C12_....json
 # --------------------------------------------------------------------------
@@ -1549,6 +2193,31 @@ def replay(ctx, rp):
                     or (0 <= a <= 360 and not (-180 < b <= 180)):
                 ctx.fail(sig, f"GeoGrid.convert_lon_coordinates: longitude {a} converted to {b}",
                          dict(r, observed=got))
+                break
+    elif kind == "history" and "steps" in r:
+        from pyunicorn.core.geo_network import GeoNetwork
+        from pyunicorn.core.spatial_network import SpatialNetwork
+        if "lat" in r:
+            g = GeoGrid(np.arange(2), np.array(r["lat"]), np.array(r["lon"]), silence_level=3)
+            net = GeoNetwork(g, adjacency=np.array(r["adjacency"]), directed=r["directed"],
+                             silence_level=3)
+        else:
+            X = np.array(r["space_seq"], dtype=np.float64)
+            g = Grid(np.arange(2), X.reshape(len(r["space_seq"]), -1), silence_level=3)
+            net = SpatialNetwork(g, adjacency=np.array(r["adjacency"]), directed=r["directed"],
+                                 silence_level=3)
+        D0 = np.array(g.distance()).copy()
+        for nm, kw in r["steps"]:
+            try:
+                with np.errstate(all="ignore"), contextlib.redirect_stdout(io.StringIO()):
+                    getattr(net, nm)(**kw)
+            except (ZeroDivisionError, ValueError):
+                pass
+            D1 = np.array(g.distance())
+            if not np.array_equal(D1, D0, equal_nan=True):
+                ctx.fail(sig, f"after {nm}({kw}) the grid's distance() is no longer the matrix it "
+                         "returned before (the cached array was edited in place)",
+                         dict(r, after=D1.astype(float).tolist()))
                 break
     else:
         print(f"[C12] no replay routine for signature {sig}; run ./check C12 with the same "
